@@ -12,7 +12,11 @@ from __future__ import annotations
 
 from typing import TYPE_CHECKING, Final
 
-from mypy.constant_fold import constant_fold_binary_op, constant_fold_unary_op
+from mypy.constant_fold import (
+    MAX_FOLDED_SIZE,
+    constant_fold_binary_op,
+    constant_fold_unary_op,
+)
 from mypy.nodes import (
     BytesExpr,
     ComplexExpr,
@@ -90,8 +94,10 @@ def constant_fold_binary_op_extended(
     if op == "+" and isinstance(left, bytes) and isinstance(right, bytes):
         return left + right
     elif op == "*" and isinstance(left, bytes) and isinstance(right, int):
-        return left * right
+        if len(left) * right <= MAX_FOLDED_SIZE:
+            return left * right
     elif op == "*" and isinstance(left, int) and isinstance(right, bytes):
-        return left * right
+        if left * len(right) <= MAX_FOLDED_SIZE:
+            return left * right
 
     return None
